@@ -35,8 +35,8 @@ PROP_UNITS = {
 
 
 _NOTE = ('Assumed, not proved: the shim contracts of the cipher/inout/hybrid-array/typenum/core API in /verif/prelude '
-         '(listed item by item in evidence.coverage.trusted_base), the drivers D1-D7 that call the repo functions, the '
-         'block cipher being a fixed function. Repo functions outside the Verus subset are external_body in Verus and '
+         '(listed item by item in evidence.coverage.trusted_base), the parts of the dependency drivers that are not extracted '
+         '(padding, key/IV init, *_blocks_b2b, gen_tail_blocks, SeekNum), the block cipher being a fixed function. Repo functions outside the Verus subset are external_body in Verus and '
          'checked by Kani with stated bounds (labelled bounded, never counted as proved).')
 
 _T = ('contract-based deductive verification: Verus on the mechanically extracted repo functions (requires/ensures, loop '
@@ -84,35 +84,49 @@ LEVEL = {
                'ks_run_concat give every partition; the repo-side chunking of the cts helpers is verified as code.',
                'The stream-core drivers of cipher::stream::core_api (default gen_par_ks_blocks, ApplyBlocksCtx / ApplyBlockCtx / WriteBlockCtx, '
                'default apply_keystream_block(s)(_inout) / write_keystream_block) are extracted and verified against ks_run as well. '
-               'Still assumed: *_blocks_b2b (closure capturing &mut self), gen_tail_blocks / WriteBlocksCtx (iteration over &mut [T]), the '
-               'byte-buffering wrapper, and the cipher itself; exercised by the harnesses (bounded).'),
-    'C08': _lv('Byte-splitting follows from run_concat / ks_run_concat / lemma_cfb_buf_concat (proved, any cut incl. empty pieces) over the '
-               'code = spec contracts; prefix preservation is lemma_run_prefix.',
-               'Block-level keystream application (cipher::stream::core_api drivers) is verified dependency text; the byte-buffering of '
-               'StreamCipherCoreWrapper and the buffered-CFB data functions are assumed / external_body: checked by stream harnesses with '
-               'two-piece splits at every offset (bounded).'),
+               'Still assumed: *_blocks_b2b (closure capturing &mut self), gen_tail_blocks / WriteBlocksCtx (iteration over &mut [T]) and '
+               'the cipher itself; exercised by the harnesses (bounded).'),
+    'C08': _lv('The byte-level stream interface is verified dependency text: StreamCipherCoreWrapper::try_apply_keystream_inout (extracted from '
+               'the pinned cipher crate) equals the per-byte reference transducer wks_run over the core\'s keystream, and wks_concat proves that '
+               'any split of the byte string (empty pieces, pieces straddling blocks) gives the same bytes and state; the cores of /repo (CTR '
+               'flavours, OFB, BelT) are verified against ks_run. One-shot CFB: AsyncStreamCipher::{encrypt,decrypt}_inout verified against '
+               'async_out, prefix preservation is lemma_async_prefix (CFB steps are bytewise); CFB-8 by lemma_run_prefix. Buffered CFB: '
+               'lemma_cfb_buf_concat over its byte transducer.',
+               'The buffered-CFB data functions (BufEncryptor::encrypt / BufDecryptor::decrypt: chunks_exact_mut / into_remainder) are '
+               'outside the Verus subset: their transducer contract is assumed in Verus and checked by harnesses (bounded).'),
     'C09': _lv('Contracts of every iv_state / inner_iv_init / get_state / from_state are verified (identity on the chaining value; CFB: E in, D '
                'out; BelT: D(le128(s)) out; CTR: current counter block out, from_nonce in); resume lemmas and equal-state lemmas are proved.',
                'Needs D.E = E.D = id as lemma hypotheses. CTR resume keeps the keystream but restarts the position (stated).'),
-    'C10': _lv('get/set_block_pos of CtrCore (all flavours) and BeltCtrCore are verified: position read-back is exact, the origin is preserved, '
-               'and the state equals the origin advanced by the position (lemma_pos_coherent, proved per type).',
-               'Byte offsets inside a block, backward seeks and current_pos overflow live in StreamCipherCoreWrapper / SeekNum (dependency): '
-               'assumed, exercised by the stream harnesses (bounded).'),
+    'C10': _lv('get/set_block_pos of CtrCore (all flavours) and BeltCtrCore are verified: position read-back is exact, the origin is preserved by '
+               'every operation, one keystream block advances the position by one, and the state equals the origin advanced by the position. '
+               'The dependency\'s StreamCipherCoreWrapper::try_seek / try_current_pos are extracted and verified: a successful seek installs '
+               'wseek_state(p) and the reported position is spos_of(state). Lemmas: wseek_state(p) is the state after producing p bytes from '
+               'offset 0 (wseek_is_run), the bytes after a seek are bytes p, p+1, ... of that keystream (wseek_keystream), the reported position '
+               'after any data call from offset p is p + n (wpos_after_run) -- for every offset, forward or backward, inside a block or not.',
+               'SeekNum (macro-generated impls for i32/u32/u64/u128/usize) is assumed with its arithmetic meaning; an Ok result carries the exact '
+               'value, otherwise an error. remaining() exactness is a C10 obligation too (a data call after a seek must not be refused).'),
     'C11': _lv('remaining() of all six flavours and of BelT is verified exact (Some(2^w-1-pos) iff representable); every keystream step advances '
-               'the position by exactly one mod 2^w.',
-               'check_remaining / try_seek are dependency code. Known finding F2 (seek past the limit wraps) is in the cipher crate, recorded.'),
+               'the position by exactly one mod 2^w. The dependency\'s wrapper is verified: check_remaining is exact, a data call is Ok iff the '
+               'request fits what remaining_blocks reports, and on Err data, core state and buffer are untouched; a request ending exactly at '
+               'the limit succeeds.',
+               'Known finding F2: try_seek does not consult remaining_blocks; the clause "a successful seek stays within the 2^w-1 usable blocks" '
+               'fails on the pinned dependency while its complement ("the only successful seeks beyond the end are into the block after the '
+               'last one") is discharged. Recorded by obligation id and by a concrete replay; not repairable in /repo.'),
     'C12': _lv('Every contract over InOut / InOutBuf is proved with the aliasing flag universally quantified and no assumption on the initial '
                'output contents; right-hand sides mention only the input at entry. Includes the cts encrypt closures and helpers.',
                'buffered CFB and the cts *_b2b defaults: harness (in place and buffer to buffer, arbitrary initial output) -- bounded.'),
     'C13': _lv('Length gates of all six cts variants: Err exactly when shorter than one block, with the frame clause (buffer untouched). Every '
                'function verified by Verus is free of panics under call-site-derived preconditions (index bounds, overflow, unwrap, '
                'debug_assert rewritten to an obligation).',
-               '*_b2b defaults (closure patterns), buffered CFB: harness only (bounded). Key/IV slice lengths and padded '
-               'decryption are decided in crypto-common / cipher (assumed).'),
+               'The dependency\'s byte wrapper is verified panic-free under its position invariant (unsafe blocks, unreachable_unchecked, '
+               'debug_assert!, assert! all discharged). *_b2b defaults (closure patterns), buffered CFB: harness only (bounded). Key/IV slice '
+               'lengths and padded decryption are decided in crypto-common / cipher (assumed).'),
     'C14': _lv('Front-ends are equal because they are proved equal to one shared spec function: OFB block step = keystream step (lemma), '
                'cts::cbc_enc/cbc_dec and the cbc crate against the same run(cbc step), CS1/CS2/CS3 on whole blocks (lemmas), buffered CFB on a '
                'whole block = block CFB step (lemma_cfb_buf_block).',
-               'KeyIvInit / from_core construction equivalence is dependency code (assumed).'),
+               'A CTR/OFB/BelT core driven block-wise equals the byte-level cipher: wks_blocks (whole blocks through the verified byte wrapper '
+               '= block-level keystream application). KeyIvInit / from_core construction equivalence is dependency code (from_core verified, '
+               'KeyIvInit assumed).'),
     'C15': _lv('Pure lemmas on the decrypt transducers (causality, CBC / CFB propagation and re-synchronisation, keystream flip, PCBC state '
                'difference, CFB-8 register shift) over the code = spec contracts.',
                '"garbles" is proved as the exact propagated difference; that it is non-zero needs injectivity of the cipher.'),
